@@ -217,7 +217,7 @@ func init() {
 			one := pathsWith(sp, func(p Path) bool { return nSteps(p) <= 1 })
 			two := samplePaths(pathsWith(sp, func(p Path) bool { return nSteps(p) == 2 }), tierN(tier, 150, 600), rng)
 			fn := samplePaths(funcPaths(tier, rng), tierN(tier, 80, 1000), rng)
-			ps := dedupPaths(append(append(append(fl, one...), two...), fn...))
+			ps := dedupPaths(append(append(append(append(fl, one...), two...), fn...), literalPaths()...))
 			jobs := evalJobs("c04", ps, "C04", tier, false, false)
 			// json.Number decoding (conversions must not be written back into the document)
 			jobs = append(jobs, evalJobs("c04n", samplePaths(ps, tierN(tier, 400, 3000), rng), "C04", tier, false, true)...)
